@@ -2,6 +2,7 @@ import Ovsdb.Codec
 import Ovsdb.Model.Diff
 import Ovsdb.CodecCache
 import Ovsdb.Model.Cond
+import Ovsdb.CodecUpdates
 /-
   Line-protocol driver: one JSON request per line on stdin, one JSON answer per
   line on stdout.  {"fn": name, ...inputs} -> {"ok": result} | {"error": text}
@@ -63,6 +64,38 @@ def evalCondFn (j : Json) : P Json := do
   | .ok v => return Json.mkObj [("v", .bool v)]
   | .error e => return Json.mkObj [("err", .str e)]
 
+/-- a chain of operations on one row, each built as a fresh update and merged
+    into the accumulated one (what Transaction.Transact does per operation) -/
+def updatesChain (j : Json) : P Json := do
+  let (_, ts) ← tableSchemaOfJson (← jField j "table")
+  let uuid ← jStr (← jField j "uuid")
+  let mut current ← jOpt modelOfJson ((j.getObjVal? "initial").toOption.getD .null)
+  let ops ← jList rowOperationOfJson (← jField j "ops")
+  let mut acc : ModelUpdate := {}
+  let mut out : Array Json := #[]
+  for op in ops do
+    match addOperation ts {} uuid current op with
+    | .error e =>
+      out := out.push (Json.mkObj [("err", .str (opErrToString e))])
+      return .arr out
+    | .ok step =>
+      match addUpdate ts acc step with
+      | .error e =>
+        out := out.push (Json.mkObj [("err", .str ("merge: " ++ opErrToString e))])
+        return .arr out
+      | .ok acc' =>
+        acc := acc'
+        if !step.isEmpty then current := step.new
+        out := out.push (Json.mkObj [("err", .null), ("step", modelUpdateToJson step), ("acc", modelUpdateToJson acc)])
+  return .arr out
+
+def mergeModifyRowFn (j : Json) : P Json := do
+  let (_, ts) ← tableSchemaOfJson (← jField j "table")
+  let o ← ovsRowOfJson (← jField j "o")
+  let a ← ovsRowOfJson (← jField j "a")
+  let b ← ovsRowOfJson (← jField j "b")
+  return optToJson ovsRowToJson (mergeModifyRow ts o a b)
+
 def dispatch (fn : String) (j : Json) : P Json := do
   match fn with
   | "difference" =>
@@ -78,6 +111,8 @@ def dispatch (fn : String) (j : Json) : P Json := do
     let a ← optValueOfJson (← jField j "a")
     let b ← optValueOfJson (← jField j "b")
     return resPair (mergeDifference o a b)
+  | "updatesChain" => updatesChain j
+  | "mergeModifyRow" => mergeModifyRowFn j
   | "cacheHistory" => cacheHistory j
   | "rowsByCondition" => rowsByConditionFn j
   | "evalCond" => evalCondFn j
